@@ -10,6 +10,18 @@ namespace CpProofs.C17
 
 open CpModel.Gzip CpModel.Negotiate
 
+/-! ## the constants the model transcribes are the ones in the source (regenerated table) -/
+
+/-- `RE_HEADER_SPLIT` and `q_separator` are the expressions `splitHeader` / `qSplit` transcribe -/
+theorem tables_pinned :
+    CpModel.Gen.C17.reHeaderSplit = [',', '(', '?', '=', '(', '?', ':', '[', '^', '"', ']', '*', '"', '[', '^', '"', ']', '*', '"', ')', '*', '[', '^', '"', ']', '*', '$', ')'] ∧
+    CpModel.Gen.C17.qSeparator = [';', ' ', '*', 'q', ' ', '*', '='] ∧
+    CpModel.Gen.C17.levelFast = 1 ∧ CpModel.Gen.C17.levelBest = 9 ∧
+    CpModel.Gen.C17.defaultEncoding = ['u', 't', 'f', '-', '8'] ∧
+    CpModel.Gen.C17.defaultMimeTypes = [['t', 'e', 'x', 't', '/', 'h', 't', 'm', 'l'], ['t', 'e', 'x', 't', '/', 'p', 'l', 'a', 'i', 'n']] ∧
+    CpModel.Gen.C17.defaultTextOnly = true ∧ CpModel.Gen.C17.defaultAddCharset = true ∧
+    CpModel.Gen.C17.defaultForcedIsNone = true := by decide
+
 /-! ## gzip member -/
 
 /-- **Round trip**: for every lawful deflate parameter, every level, MTIME and every chunking of the
@@ -64,10 +76,12 @@ example : crc32 [0x31, 0x32, 0x33, 0x34, 0x35, 0x36, 0x37, 0x38, 0x39] = 0xCBF43
     (9 → 2, 1 → 4, else 0), OS = 255. -/
 theorem C17_gzip_header (level mtime : Nat) :
     (headerChunks level mtime).flatten =
-      [0x1f, 0x8b, 0x08, 0x00] ++ le32 (mtime % 4294967296) ++
-        [if level = 9 then 2 else if level = 1 then 4 else 0, 0xff] ∧
-    (headerChunks level mtime).flatten.length = 10 := by
-  simp [headerChunks, le32, xfl]
+      [0x1f, 0x8b, 0x08, 0x00] ++ le32 (mtime % 4294967296) ++ [xfl level, 0xff] ∧
+    (headerChunks level mtime).flatten.length = 10 ∧
+    xfl 9 = 2 ∧ xfl 1 = 4 ∧ (level ≠ 9 → level ≠ 1 → xfl level = 0) := by
+  refine ⟨by simp [headerChunks, le32], by simp [headerChunks, le32], by decide, by decide, ?_⟩
+  intro h9 h1
+  simp [xfl, CpModel.Gen.C17.levelBest, CpModel.Gen.C17.levelFast, h9, h1]
 
 /-! ## the gzip tool: labels and passthrough -/
 
